@@ -39,6 +39,10 @@ var schemaKinds = []schemaKind{
 	{"array-integer", `{"type":"array","items":{"type":"integer"}}`, "array-integer"},
 	{"object", `{"type":"object","required":["k1","k2"],"properties":{"k1":{"type":"string"},"k2":{"type":"string"}}}`, "object"},
 	{"map", `{"type":"object","additionalProperties":{"type":"string"}}`, "map"},
+	// two more object schemas, probed because the generated struct code differs:
+	// all properties optional (EncodeField is called without a value), no properties at all
+	{"object-optional", `{"type":"object","properties":{"k1":{"type":"string"},"k2":{"type":"string"}}}`, "object-optional"},
+	{"object-no-properties", `{"type":"object","properties":{},"additionalProperties":false}`, "object-empty"},
 	{"array-object", `{"type":"array","items":{"type":"object","properties":{"k1":{"type":"string"}}}}`, ""},
 	{"object-array-field", `{"type":"object","properties":{"k1":{"type":"array","items":{"type":"string"}}}}`, ""},
 	{"oneOf-string-integer", `{"oneOf":[{"type":"string"},{"type":"integer"}]}`, ""},
@@ -110,8 +114,8 @@ func diagClass(stage, msg string) string {
 	switch {
 	case strings.Contains(m, "invalid style explode combination"):
 		return "parser: invalid style explode combination"
-	case strings.Contains(m, "invalid schema:style:explode combination"):
-		return "parser: invalid schema:style:explode combination"
+	case strings.Contains(m, "invalid schema.type:style:explode combination"):
+		return "parser: invalid schema.type:style:explode combination"
 	case strings.Contains(m, "spaceDelimited parameter style"):
 		return "generator: not implemented: spaceDelimited parameter style"
 	case strings.Contains(m, "pipeDelimited style for object"):
@@ -125,13 +129,20 @@ func diagClass(stage, msg string) string {
 	case strings.Contains(m, "nested objects not allowed"):
 		return "generator: nested objects not allowed"
 	}
-	// generic: stage + last message segment
+	// generic: origin + last message segment
+	origin := stage
+	switch {
+	case strings.HasPrefix(m, "parse spec:"):
+		origin = "parser"
+	case strings.HasPrefix(m, "make ir:"):
+		origin = "generator"
+	}
 	parts := strings.Split(m, ": ")
 	last := strings.TrimSpace(parts[len(parts)-1])
 	if len(last) > 80 {
 		last = last[:80]
 	}
-	return stage + ": " + last
+	return origin + ": " + last
 }
 
 func unwrap(t *ir.Type) *ir.Type {
@@ -198,7 +209,7 @@ type Combo struct {
 	Loc     string `json:"loc"`
 	Style   string `json:"style"`
 	Explode bool   `json:"explode"`
-	Shape   string `json:"shape"` // string|integer|number|boolean|array-string|array-integer|object|map
+	Shape   string `json:"shape"` // string|integer|number|boolean|array-string|array-integer|object|object-optional|object-empty|map
 	// FieldsCfg: generated code passes the declared properties to the query decoder.
 	FieldsCfg bool `json:"fields_cfg"`
 }
@@ -235,6 +246,7 @@ func observeAdmission(r *ev.Run) ([]Combo, []Admission) {
 	expectKind := map[string]string{
 		"string": "primitive", "integer": "primitive", "number": "primitive", "boolean": "primitive",
 		"array-string": "array", "array-integer": "array", "object": "struct", "map": "map",
+		"object-optional": "struct", "object-empty": "struct",
 	}
 
 	seen := map[string]bool{}
